@@ -61,7 +61,39 @@ func (c *Ctx) RetrySites() []RetrySite {
 		for _, b := range fn.Blocks {
 			for _, in := range b.Instrs {
 				if call, ok := in.(*ssa.Call); ok && isCallTo(in, fnBackoffRetry) {
-					out = append(out, RetrySite{Parent: fn, Call: call, Op: retryOp(call)})
+					if op := retryOp(call); op != nil || len(call.Call.Args) == 0 {
+						out = append(out, RetrySite{Parent: fn, Call: call, Op: op})
+						continue
+					}
+					// the operation is handed to this function by its callers (a `retry(ctx, op)`
+					// helper): each caller that passes a function it makes is a site of its own
+					prm, isPrm := stripConv(call.Call.Args[0]).(*ssa.Parameter)
+					if !isPrm || !unexportedName(fn) {
+						out = append(out, RetrySite{Parent: fn, Call: call})
+						continue
+					}
+					idx := -1
+					for j, q := range fn.Params {
+						if q == prm {
+							idx = j
+						}
+					}
+					n := 0
+					for _, caller := range c.LibFuncs() {
+						rawInstrs(caller, false, func(in2 ssa.Instruction) {
+							c2, isCall := in2.(*ssa.Call)
+							if !isCall || c2.Call.StaticCallee() != fn || idx < 0 || idx >= len(c2.Call.Args) {
+								return
+							}
+							if op := closureFn(c2.Call.Args[idx]); op != nil {
+								out = append(out, RetrySite{Parent: caller, Call: call, Op: op})
+								n++
+							}
+						})
+					}
+					if n == 0 {
+						out = append(out, RetrySite{Parent: fn, Call: call})
+					}
 				}
 			}
 		}
